@@ -1,7 +1,7 @@
 /-
 C17 — "a loader that succeeds returns an object in which every attribute it declares as guaranteed is set",
-as THEOREMS for the nine formats with a raw reader model (`Model/Rd/*`: XYZ, SDF, MOL2, PDB, Gaussian cube, GROMACS
-gro, VASP POSCAR / CHGCAR / LOCPOT — the same functions the driver runs for the `rdr:<fmt>` correspondence streams, which compare, for every
+as THEOREMS for the ten formats with a raw reader model (`Model/Rd/*`: XYZ, SDF, MOL2, PDB, Gaussian cube, GROMACS
+gro, VASP POSCAR / CHGCAR / LOCPOT, CHARMM CRD — the same functions the driver runs for the `rdr:<fmt>` correspondence streams, which compare, for every
 input, the keys of the result dictionary and the attributes that are not `None` on the constructed object).
 
 All statements are about the *generated* terms
@@ -17,8 +17,8 @@ not `None`.  `isSetB o a`: `getattr(IOData(**result), a) is not None` (the predi
 passed key, or a field defaulting to a fresh `dict`, or `atcorenums` derived from `atnums`.  Both are `false` for
 every name the model's result object does not represent (`Rd.accessor? a = none`), so a guaranteed name outside
 the represented ones makes the theorem unprovable instead of being skipped; `uncovered_none` pins that today no
-guaranteed name of the nine modules is outside.  Represented: atcoords, atnums, atcorenums, atcharges, atffparams,
-bonds, cellvecs, cube, extra, title (presence of the key; for the dictionaries `atcharges`, `atffparams`, `extra`
+guaranteed name of the ten modules is outside.  Represented: atcoords, atnums, atcorenums, atcharges, atffparams,
+atmasses, bonds, cellvecs, cube, extra, title (presence of the key; for the dictionaries `atcharges`, `atffparams`, `extra`
 presence of the dictionary — their sub-keys are not part of any declaration).
 
 Per format `F`:
@@ -56,7 +56,7 @@ def GuaranteedSet (m e : Str) (o : RObj) : Prop :=
 /-! ## registry-wide facts (generated terms only) -/
 
 /-- **source_keys_match_model**.  The table of keys the reader MODELS return (`Rd.modelKeys`, proved row by row
-below: `F_keys`) and the table extracted from the SOURCE of the nine `load_one` functions (`Gen.ReaderKeys.resultKeys`:
+below: `F_keys`) and the table extracted from the SOURCE of the ten `load_one` functions (`Gen.ReaderKeys.resultKeys`:
 keys in every returned dictionary / keys stored on some paths only) list the same formats with the same `always` and
 the same `sometimes` sets.  (A reader that stops storing a key unconditionally moves it to `sometimes` and breaks
 this theorem.) -/
@@ -65,7 +65,7 @@ theorem source_keys_match_model :
     ∀ e ∈ resultKeys, ∃ m ∈ modelKeys, m.1 = e.1 ∧ sameSet e.2.1 m.2.1 = true ∧ sameSet e.2.2 m.2.2 = true := by
   decide +kernel
 
-/-- **guaranteed_within_source_always**.  For each of the nine modules and for `load_one` and `load_many`: every
+/-- **guaranteed_within_source_always**.  For each of the ten modules and for `load_one` and `load_many`: every
 declared guaranteed name is one of the keys that, by the source skeleton, every dictionary returned by `load_one`
 carries. -/
 theorem guaranteed_within_source_always :
@@ -73,7 +73,7 @@ theorem guaranteed_within_source_always :
       ∀ a ∈ d.guaranteed, a ∈ e.2.1 := by
   decide +kernel
 
-/-- **load_many_frames_are_load_one**.  Every `load_many` of the nine modules (cube and the VASP formats have none) yields, by the source
+/-- **load_many_frames_are_load_one**.  Every `load_many` of the ten modules (cube, the VASP formats and CHARMM CRD have none) yields, by the source
 skeleton, only unmodified dictionaries returned by `load_one(lit, …)`; the modules with a `load_many` are exactly
 those the registry lists. -/
 theorem load_many_frames_are_load_one :
@@ -87,9 +87,9 @@ theorem dict_defaults_match_source :
     ∀ p ∈ accessors, (dictDefaults.contains p.1 = true ↔ p.1 ∈ notNoneDefaults) := by
   decide +kernel
 
-/-- **uncovered_none**.  The list of guaranteed names (of the nine modules' `load_one`/`load_many`) that the model's
+/-- **uncovered_none**.  The list of guaranteed names (of the ten modules' `load_one`/`load_many`) that the model's
 result object does not represent is empty — it cannot grow silently; and the list of guaranteed names it is computed
-from has at least one `load_one` name for each of the nine modules. -/
+from has at least one `load_one` name for each of the ten modules. -/
 theorem uncovered_none :
     uncovered declared = [] ∧
     ∀ m ∈ modelKeys, ∃ t ∈ guaranteedNames declared, t.1 = m.1 ∧ t.2.1 = eLoadOne := by
@@ -307,6 +307,26 @@ theorem locpot_api_guaranteed (T : Tables) (ls : List Str) (h : apiOutcome (Rd.V
   obtain ⟨o, ho, hc⟩ := (reader_load_one_ret _).mp h
   exact ⟨o, ho, by simp [ctorE, hc], locpot_guaranteed_load_one T ls o ho⟩
 
+/-! ## CHARMM CRD (module `charmm`, no `load_many`) -/
+
+/-- **crd_keys**: for every line list, an object returned by the CRD reader has exactly the keys atcoords,
+atffparams, atmasses, extra, title. -/
+theorem crd_keys (ls : List Str) (o : RObj) (h : (Rd.Crd.read ls).res = .ok o) : KeysBetween o crdB [] := by
+  obtain ⟨n, rfl⟩ := crd_form ls o h
+  exact keysBetween_of_eq (ks := [kAtcoords, kAtffparams, kAtmasses, kExtra, kTitle]) rfl (by decide) (by decide)
+
+/-- **crd_guaranteed_load_one**: as `xyz_guaranteed_load_one`, for `charmm.load_one` (guaranteed: atcoords,
+atffparams, atmasses, extra). -/
+theorem crd_guaranteed_load_one (ls : List Str) (o : RObj) (h : (Rd.Crd.read ls).res = .ok o) :
+    GuaranteedSet fCrd eLoadOne o :=
+  ⟨by decide +kernel, guaranteed_of_keys (crd_keys ls o h) (by decide +kernel)⟩
+
+/-- **crd_api_guaranteed**: as `xyz_api_guaranteed`. -/
+theorem crd_api_guaranteed (ls : List Str) (h : apiOutcome (Rd.Crd.read ls) = .ret) :
+    ∃ o, (Rd.Crd.read ls).res = .ok o ∧ ctorE o = none ∧ GuaranteedSet fCrd eLoadOne o := by
+  obtain ⟨o, ho, hc⟩ := (reader_load_one_ret _).mp h
+  exact ⟨o, ho, by simp [ctorE, hc], crd_guaranteed_load_one ls o ho⟩
+
 /-! ## non-vacuity: concrete files on which the readers return an object (evaluated by the kernel with the generated
 tables and layouts), with its keys, the constructor's acceptance and the guaranteed names exhibited; for MOL2 and PDB
 one file with and one without the `sometimes` key `bonds`; for SDF a record without bonds (`bonds` is still a key) -/
@@ -346,10 +366,15 @@ example : witnessOk declared (Rd.Vasp.readChgcar tables chgcarO) fChgcar eLoadOn
       [kAtcoords, kAtnums, kCellvecs, kCube, kTitle] = true ∧
     apiOutcome (Rd.Vasp.readChgcar tables chgcarO) = .ret := by
   decide +kernel
+example : witnessOk declared (Rd.Crd.read crdTwo) fCrd eLoadOne
+      [kAtcoords, kAtffparams, kAtmasses, kExtra, kTitle] = true ∧
+    apiOutcome (Rd.Crd.read crdTwo) = .ret ∧
+    guaranteedOf declared fCrd eLoadOne = some [kAtcoords, kAtffparams, kAtmasses, kExtra] := by
+  decide +kernel
 /-- the API level is not vacuous either: `load_one` returns the object for the XYZ witness -/
 example : apiOutcome (Rd.Xyz.read tables xyzH2) = .ret := by decide +kernel
 /-- a name the object does not represent is never "set" (so a guaranteed list containing it cannot be proved) -/
-example : hasKeyB {} ['a','t','m','a','s','s','e','s'] = false ∧ isSetB {} ['a','t','m','a','s','s','e','s'] = false ∧
+example : hasKeyB {} ['e','n','e','r','g','y'] = false ∧ isSetB {} ['e','n','e','r','g','y'] = false ∧
     isSetB {} kExtra = true ∧ hasKeyB {} kExtra = false := by decide +kernel
 
 end Iodata.Props.C17Readers
